@@ -844,3 +844,455 @@ Proof.
   split; [exact lock_lint_table|]. split; [exact query_kinds_locked|].
   destruct lock_lint_rest as [H1 [H2 [H3 _]]]. auto.
 Qed.
+
+(* ------------------------------------------------------------------ fine-grained critical section *)
+Lemma Forall2_nth_error_l {X Y} (P : X -> Y -> Prop) l1 l2 i x :
+  Forall2 P l1 l2 -> nth_error l1 i = Some x -> exists y, nth_error l2 i = Some y /\ P x y.
+Proof.
+  intro H. revert i. induction H as [|a b l1 l2 Hab _ IH]; intros [|i] Hi; try discriminate.
+  - inversion Hi; subst. exists b. split; [reflexivity|exact Hab].
+  - apply IH; exact Hi.
+Qed.
+
+Lemma Forall2_set_nth {X Y} (P : X -> Y -> Prop) l1 l2 i x y :
+  Forall2 P l1 l2 -> P x y -> Forall2 P (set_nth l1 i x) (set_nth l2 i y).
+Proof.
+  intros H Hxy. revert i. induction H as [|a b l1 l2 Hab Hr IH]; intros [|i]; cbn [set_nth]; constructor; auto.
+Qed.
+
+Lemma Forall2_set_nth_l {X Y} (P : X -> Y -> Prop) l1 l2 i x y :
+  Forall2 P l1 l2 -> nth_error l2 i = Some y -> P x y -> Forall2 P (set_nth l1 i x) l2.
+Proof.
+  intros H. revert i. induction H as [|a b l1 l2 Hab Hr IH]; intros [|i] Hy Hxy; cbn [set_nth]; try discriminate.
+  - inversion Hy; subst. constructor; assumption.
+  - constructor; [exact Hab|]. apply IH; assumption.
+Qed.
+
+Lemma Forall2_map_both {X Y Z} (P : Y -> Z -> Prop) (f : X -> Y) (g : X -> Z) l :
+  (forall x, P (f x) (g x)) -> Forall2 P (map f l) (map g l).
+Proof. intro H. induction l; cbn [map]; constructor; auto. Qed.
+
+Section FineProofs.
+  Variables Q A L : Type.
+  Variable tick : cache -> Q -> cache.
+  Variable probe : cache -> Q -> L.
+  Variable commit : cache -> Q -> L -> res (cache * A).
+
+  Notation body := (atomic_body tick probe commit).
+  Notation fstate := (fstate Q A L).
+  Notation fthread := (fthread Q A L).
+  Notation fstepT := (fstep tick probe commit true).
+  Notation frunT := (frun tick probe commit true).
+
+  Definition pc_rel (f : fpc L) (p : pc) : Prop :=
+    match f, p with
+    | FAcquire, AtAcquire | FTick, AtBody | FProbe, AtBody | FCommit _, AtBody
+    | FRelease, AtRelease | FPost, AtPost | FCrashed, Crashed => True
+    | _, _ => False
+    end.
+
+  Definition trel (ft : fthread) (t : thread Q A) : Prop :=
+    pc_rel (ft_pc ft) (t_pc t) /\ ft_todo ft = t_todo t /\ ft_done ft = t_done t.
+
+  (* how far the holder has got: cc = cache of the atomic model (Body not yet run), fc = actual *)
+  Definition progress (ft : fthread) (cc fc : cache) : Prop :=
+    match ft_pc ft, ft_todo ft with
+    | FTick, _ :: _ => fc = cc
+    | FProbe, q :: _ => fc = tick cc q
+    | FCommit l, q :: _ => fc = tick cc q /\ l = probe fc q
+    | FRelease, _ => fc = cc
+    | _, _ => False
+    end.
+
+  Definition sim (fs : fstate) (cs : state Q A) : Prop :=
+    fs_poisoned fs = s_poisoned cs /\ fs_owner fs = s_owner cs /\
+    Forall2 trel (fs_threads fs) (s_threads cs) /\
+    match fs_owner fs with
+    | None => fs_poisoned fs = false -> fs_cache fs = s_cache cs
+    | Some i => exists ft, nth_error (fs_threads fs) i = Some ft /\ progress ft (s_cache cs) (fs_cache fs)
+    end.
+
+  Lemma fowner_is_true (s : fstate) i : fowner_is s i = true -> fs_owner s = Some i.
+  Proof.
+    unfold fowner_is. destruct (fs_owner s) as [j|]; [|discriminate].
+    intro H. apply Nat.eqb_eq in H. subst; reflexivity.
+  Qed.
+
+  Lemma nth_fupd (s : fstate) i j t t' :
+    nth_error (fs_threads s) i = Some t ->
+    nth_error (fupd s i t') j = if Nat.eqb i j then Some t' else nth_error (fs_threads s) j.
+  Proof. intro H. unfold fupd. eapply nth_error_set_nth; exact H. Qed.
+
+  Lemma sim_init c qss : sim (finit c qss) (init c qss).
+  Proof.
+    unfold sim. cbn [finit init fs_poisoned s_poisoned fs_owner s_owner fs_threads s_threads fs_cache s_cache].
+    repeat split; auto. apply Forall2_map_both. intro qs. repeat split.
+  Qed.
+
+  Lemma sim_release (fs : fstate) cs j fs' ft t :
+    sim fs cs -> nth_error (fs_threads fs) j = Some ft -> nth_error (s_threads cs) j = Some t ->
+    ft_pc ft = FRelease -> t_pc t = AtRelease -> ft_todo ft = t_todo t -> ft_done ft = t_done t ->
+    (if is_mine Q A L true fs j
+     then Some (mkFS (fs_cache fs) (fs_poisoned fs) None (fupd fs j (mkFT FPost (ft_todo ft) (ft_done ft))))
+     else None) = Some fs' ->
+    sim fs' cs \/ exists cs', step body cs j = Some cs' /\ sim fs' cs'.
+  Proof.
+    intros [Hp [Ho [Hth Hc]]] Hft Ht Hfpc Htpc Htodo Hdone Hs.
+    unfold is_mine in Hs. destruct (fowner_is fs j) eqn:Hmine; [|discriminate].
+    apply fowner_is_true in Hmine. inversion Hs; subst fs'; clear Hs.
+    rewrite Hmine in Hc. destruct Hc as [ft0 [Hft0 Hprog]]. rewrite Hft in Hft0. inversion Hft0; subst ft0.
+    unfold progress in Hprog. rewrite Hfpc in Hprog.
+    assert (Hfc : fs_cache fs = s_cache cs) by (destruct (ft_todo ft); exact Hprog).
+    assert (Hown : owner_is cs j = true) by (apply owner_is_Some; rewrite <- Ho; exact Hmine).
+    right. eexists. split.
+    - unfold step. rewrite Ht, Htpc, Hown. reflexivity.
+    - unfold sim. cbn [fs_poisoned s_poisoned fs_owner s_owner fs_threads s_threads fs_cache s_cache].
+      split; [exact Hp|]. split; [reflexivity|]. split; [|intros _; exact Hfc].
+      unfold fupd, upd. apply Forall2_set_nth; [exact Hth|].
+      unfold trel. cbn [ft_pc t_pc ft_todo t_todo ft_done t_done pc_rel]. auto.
+  Qed.
+
+  Lemma sim_post (fs : fstate) cs j fs' ft t :
+    sim fs cs -> nth_error (fs_threads fs) j = Some ft -> nth_error (s_threads cs) j = Some t ->
+    ft_pc ft = FPost -> t_pc t = AtPost -> ft_todo ft = t_todo t -> ft_done ft = t_done t ->
+    Some (mkFS (fs_cache fs) (fs_poisoned fs) (fs_owner fs) (fupd fs j (mkFT FAcquire (ft_todo ft) (ft_done ft)))) = Some fs' ->
+    sim fs' cs \/ exists cs', step body cs j = Some cs' /\ sim fs' cs'.
+  Proof.
+    intros [Hp [Ho [Hth Hc]]] Hft Ht Hfpc Htpc Htodo Hdone Hs.
+    inversion Hs; subst fs'; clear Hs. right. eexists. split.
+    - unfold step. rewrite Ht, Htpc. reflexivity.
+    - unfold sim. cbn [fs_poisoned s_poisoned fs_owner s_owner fs_threads s_threads fs_cache s_cache].
+      split; [exact Hp|]. split; [exact Ho|]. split.
+      + unfold fupd, upd. apply Forall2_set_nth; [exact Hth|].
+        unfold trel. cbn [ft_pc t_pc ft_todo t_todo ft_done t_done pc_rel]. auto.
+      + destruct (fs_owner fs) as [i|] eqn:Hfo; [|exact Hc].
+        destruct Hc as [ft0 [Hft0 Hprog]]. exists ft0. split; [|exact Hprog].
+        rewrite (nth_fupd fs j i ft _ Hft). destruct (Nat.eqb j i) eqn:E; [|exact Hft0].
+        apply Nat.eqb_eq in E; subst i. rewrite Hft in Hft0. inversion Hft0; subst ft0.
+        unfold progress in Hprog. rewrite Hfpc in Hprog. contradiction.
+  Qed.
+
+  Lemma simulation (fs : fstate) cs j fs' :
+    sim fs cs -> fstepT fs j = Some fs' ->
+    sim fs' cs \/ exists cs', step body cs j = Some cs' /\ sim fs' cs'.
+  Proof.
+    intros [Hp [Ho [Hth Hc]]] Hs. unfold fstep in Hs.
+    destruct (nth_error (fs_threads fs) j) as [ft|] eqn:Hft; [|discriminate].
+    destruct (Forall2_nth_error_l _ _ _ _ _ Hth Hft) as [t [Ht [Hpc [Htodo Hdone]]]].
+    destruct (ft_pc ft) eqn:Hfpc; destruct (ft_todo ft) as [|q rest] eqn:Hftodo; try discriminate;
+      unfold pc_rel in Hpc; destruct (t_pc t) eqn:Htpc; try contradiction.
+    - (* Acquire *)
+      unfold may_enter in Hs. destruct (fs_owner fs) eqn:Hfo; [discriminate|].
+      cbn [andb] in Hs. right.
+      destruct (fs_poisoned fs) eqn:Hfp; inversion Hs; subst fs'; clear Hs.
+      + eexists. split.
+        * unfold step. rewrite Ht, Htpc, <- Htodo, <- Ho, <- Hp. reflexivity.
+        * unfold sim. cbn [fs_poisoned s_poisoned fs_owner s_owner fs_threads s_threads fs_cache s_cache].
+          split; [reflexivity|]. split; [reflexivity|]. split; [|discriminate].
+          unfold fupd, upd. apply Forall2_set_nth; [exact Hth|].
+          unfold trel. cbn [ft_pc t_pc ft_todo t_todo ft_done t_done pc_rel]. auto.
+      + eexists. split.
+        * unfold step. rewrite Ht, Htpc, <- Htodo, <- Ho, <- Hp. reflexivity.
+        * unfold sim. cbn [fs_poisoned s_poisoned fs_owner s_owner fs_threads s_threads fs_cache s_cache].
+          split; [reflexivity|]. split; [reflexivity|]. split.
+          -- unfold fupd, upd. apply Forall2_set_nth; [exact Hth|].
+             unfold trel. cbn [ft_pc t_pc ft_todo t_todo ft_done t_done pc_rel]. auto.
+          -- eexists. split; [rewrite (nth_fupd fs j j ft _ Hft), Nat.eqb_refl; reflexivity|].
+             unfold progress. cbn [ft_pc ft_todo]. apply Hc. reflexivity.
+    - (* Tick: the atomic model stutters *)
+      unfold is_mine in Hs. destruct (fowner_is fs j) eqn:Hmine; [|discriminate].
+      apply fowner_is_true in Hmine. inversion Hs; subst fs'; clear Hs. left.
+      rewrite Hmine in Hc. destruct Hc as [ft0 [Hft0 Hprog]]. rewrite Hft in Hft0. inversion Hft0; subst ft0.
+      unfold progress in Hprog. rewrite Hfpc, Hftodo in Hprog.
+      unfold sim. cbn [fs_poisoned fs_owner fs_threads fs_cache].
+      split; [exact Hp|]. split; [exact Ho|]. split.
+      + unfold fupd. eapply Forall2_set_nth_l; [exact Hth|exact Ht|].
+        unfold trel. cbn [ft_pc ft_todo ft_done]. rewrite Htpc. cbn [pc_rel]. auto.
+      + rewrite Hmine. eexists. split; [rewrite (nth_fupd fs j j ft _ Hft), Nat.eqb_refl; reflexivity|].
+        unfold progress. cbn [ft_pc ft_todo]. rewrite Hprog. reflexivity.
+    - (* Probe: stutter *)
+      unfold is_mine in Hs. destruct (fowner_is fs j) eqn:Hmine; [|discriminate].
+      apply fowner_is_true in Hmine. inversion Hs; subst fs'; clear Hs. left.
+      rewrite Hmine in Hc. destruct Hc as [ft0 [Hft0 Hprog]]. rewrite Hft in Hft0. inversion Hft0; subst ft0.
+      unfold progress in Hprog. rewrite Hfpc, Hftodo in Hprog.
+      unfold sim. cbn [fs_poisoned fs_owner fs_threads fs_cache].
+      split; [exact Hp|]. split; [exact Ho|]. split.
+      + unfold fupd. eapply Forall2_set_nth_l; [exact Hth|exact Ht|].
+        unfold trel. cbn [ft_pc ft_todo ft_done]. rewrite Htpc. cbn [pc_rel]. auto.
+      + rewrite Hmine. eexists. split; [rewrite (nth_fupd fs j j ft _ Hft), Nat.eqb_refl; reflexivity|].
+        unfold progress. cbn [ft_pc ft_todo]. auto.
+    - (* Commit = the Body event of the atomic model *)
+      unfold is_mine in Hs. destruct (fowner_is fs j) eqn:Hmine; [|discriminate].
+      apply fowner_is_true in Hmine.
+      rewrite Hmine in Hc. destruct Hc as [ft0 [Hft0 Hprog]]. rewrite Hft in Hft0. inversion Hft0; subst ft0.
+      unfold progress in Hprog. rewrite Hfpc, Hftodo in Hprog. destruct Hprog as [Hfc Hl].
+      assert (Hbody : body (s_cache cs) q = commit (fs_cache fs) q l).
+      { unfold atomic_body. rewrite <- Hfc. rewrite <- Hl. reflexivity. }
+      assert (Hown : owner_is cs j = true) by (apply owner_is_Some; rewrite <- Ho; exact Hmine).
+      right. destruct (commit (fs_cache fs) q l) as [[c' a]|w] eqn:Hcm; inversion Hs; subst fs'; clear Hs.
+      + eexists. split.
+        * unfold step. rewrite Ht, Htpc, Hown, <- Htodo, Hbody. reflexivity.
+        * unfold sim. cbn [fs_poisoned s_poisoned fs_owner s_owner fs_threads s_threads fs_cache s_cache].
+          split; [exact Hp|]. split; [exact Ho|]. split.
+          -- unfold fupd, upd. apply Forall2_set_nth; [exact Hth|].
+             unfold trel. cbn [ft_pc t_pc ft_todo t_todo ft_done t_done pc_rel]. rewrite Hdone. auto.
+          -- rewrite Hmine. eexists. split; [rewrite (nth_fupd fs j j ft _ Hft), Nat.eqb_refl; reflexivity|].
+             unfold progress. cbn [ft_pc ft_todo]. reflexivity.
+      + eexists. split.
+        * unfold step. rewrite Ht, Htpc, Hown, <- Htodo, Hbody. reflexivity.
+        * unfold sim. cbn [fs_poisoned s_poisoned fs_owner s_owner fs_threads s_threads fs_cache s_cache].
+          split; [reflexivity|]. split; [reflexivity|]. split; [|discriminate].
+          unfold fupd, upd. apply Forall2_set_nth; [exact Hth|].
+          unfold trel. cbn [ft_pc t_pc ft_todo t_todo ft_done t_done pc_rel]. auto.
+    - (* Release, no query left *)
+      rewrite <- Hftodo in Hs. rewrite <- Hftodo in Htodo.
+      apply (sim_release fs cs j fs' ft t); auto. repeat split; assumption.
+    - rewrite <- Hftodo in Hs. rewrite <- Hftodo in Htodo.
+      apply (sim_release fs cs j fs' ft t); auto. repeat split; assumption.
+    - (* Post *)
+      rewrite <- Hftodo in Hs. rewrite <- Hftodo in Htodo.
+      apply (sim_post fs cs j fs' ft t); auto. repeat split; assumption.
+    - rewrite <- Hftodo in Hs. rewrite <- Hftodo in Htodo.
+      apply (sim_post fs cs j fs' ft t); auto. repeat split; assumption.
+  Qed.
+
+  (* every fine-grained run with the mutex is a run of the atomic model, up to stuttering *)
+  Theorem fine_simulated fsched : forall (fs : fstate) cs fs',
+    sim fs cs -> frunT fs fsched = Some fs' ->
+    exists sched cs', run body cs sched = Some cs' /\ sim fs' cs'.
+  Proof.
+    induction fsched as [|j r IH]; intros fs cs fs' Hsim Hrun; cbn [frun] in Hrun.
+    - inversion Hrun; subst. exists [], cs. split; [reflexivity|exact Hsim].
+    - destruct (fstepT fs j) as [fs1|] eqn:Hs; [|discriminate].
+      destruct (simulation fs cs j fs1 Hsim Hs) as [Hst|[cs1 [Hcs Hsim1]]].
+      + apply (IH fs1 cs fs' Hst Hrun).
+      + destruct (IH fs1 cs1 fs' Hsim1 Hrun) as [sched [cs' [Hr Hs']]].
+        exists (j :: sched), cs'. split; [|exact Hs']. cbn [run]. rewrite Hcs. exact Hr.
+  Qed.
+
+  Lemma in_critical_holding (ft : fthread) t : trel ft t -> in_critical ft = holdingb t.
+  Proof.
+    intros [Hpc _]. unfold in_critical, holdingb, pc_rel in *.
+    destruct (ft_pc ft); destruct (t_pc t); try contradiction; reflexivity.
+  Qed.
+
+  (* mutual exclusion for the phases: two threads are never both between Acquire and Release *)
+  Theorem fine_mutual_exclusion c qss fsched (fs : fstate) i j fi fj :
+    frunT (finit c qss) fsched = Some fs ->
+    nth_error (fs_threads fs) i = Some fi -> nth_error (fs_threads fs) j = Some fj ->
+    in_critical fi = true -> in_critical fj = true -> i = j.
+  Proof.
+    intros Hrun Hi Hj Hci Hcj.
+    destruct (fine_simulated fsched _ _ _ (sim_init c qss) Hrun) as [sched [cs [Hr [_ [_ [Hth _]]]]]].
+    destruct (Forall2_nth_error_l _ _ _ _ _ Hth Hi) as [ti [Hti Hri]].
+    destruct (Forall2_nth_error_l _ _ _ _ _ Hth Hj) as [tj [Htj Hrj]].
+    apply (mutual_exclusion Q A body c qss cs i j (ex_intro _ sched Hr)).
+    - exists ti. split; [exact Hti|]. rewrite <- (in_critical_holding fi ti Hri). exact Hci.
+    - exists tj. split; [exact Htj|]. rewrite <- (in_critical_holding fj tj Hrj). exact Hcj.
+  Qed.
+
+  (* deadlock freedom for the phases: some event is enabled unless every thread is finished *)
+  Theorem fine_no_deadlock c qss fsched (fs : fstate) :
+    frunT (finit c qss) fsched = Some fs -> ffinal fs = false -> exists i fs', fstepT fs i = Some fs'.
+  Proof.
+    intros Hrun Hfin.
+    destruct (fine_simulated fsched _ _ _ (sim_init c qss) Hrun) as [sched [cs [Hr [Hp [Ho [Hth Hc]]]]]].
+    pose proof (wf_reachable Q A body c qss cs (ex_intro _ sched Hr)) as [_ [Hh _]].
+    destruct (fs_owner fs) as [i|] eqn:Hfo.
+    - destruct Hc as [ft [Hft Hprog]]. exists i. unfold fstep. rewrite Hft.
+      assert (Hmine : is_mine Q A L true fs i = true)
+        by (unfold is_mine, fowner_is; rewrite Hfo; apply Nat.eqb_refl).
+      unfold progress in Hprog.
+      destruct (ft_pc ft); destruct (ft_todo ft) as [|q rest]; try contradiction; rewrite Hmine; eauto.
+      destruct (commit (fs_cache fs) q l) as [[c' a]|w]; eauto.
+    - unfold ffinal in Hfin. apply forallb_false_ex in Hfin. destruct Hfin as [ft [Hin Hf]].
+      apply In_nth_error in Hin. destruct Hin as [j Hft]. exists j.
+      destruct (Forall2_nth_error_l _ _ _ _ _ Hth Hft) as [t [Ht Hrel]].
+      assert (Hnc : in_critical ft = false).
+      { destruct (in_critical ft) eqn:E; [|reflexivity]. exfalso.
+        assert (Hx : holding cs j) by (exists t; split; [exact Ht|rewrite <- (in_critical_holding ft t Hrel); exact E]).
+        apply Hh in Hx. congruence. }
+      unfold fstep. rewrite Hft. unfold ffinishedb in Hf. unfold in_critical in Hnc.
+      destruct (ft_pc ft); try discriminate.
+      + destruct (ft_todo ft) as [|q rest]; [discriminate|].
+        unfold may_enter. rewrite Hfo. cbn [andb]. destruct (fs_poisoned fs); eauto.
+      + destruct (ft_todo ft); eauto.
+  Qed.
+
+  (* the theorems about answers and poisoning carry over, with the premises stated for the
+     phases run back to back (atomic_body) *)
+  Variable inv : cache -> Prop.
+  Hypothesis body_ok :
+    forall c q, inv c -> exists c' a, body c q = Ok (c', a) /\ inv c'.
+  Hypothesis answer_cache_independent :
+    forall c1 c2 q c1' a1 c2' a2, inv c1 -> inv c2 ->
+      body c1 q = Ok (c1', a1) -> body c2 q = Ok (c2', a2) -> a1 = a2.
+
+  Theorem fine_no_poison c qss fsched (fs : fstate) :
+    inv c -> frunT (finit c qss) fsched = Some fs ->
+    fs_poisoned fs = false /\ fany_crashed fs = false.
+  Proof.
+    intros Hc Hrun.
+    destruct (fine_simulated fsched _ _ _ (sim_init c qss) Hrun) as [sched [cs [Hr [Hp [_ [Hth _]]]]]].
+    destruct (no_poison Q A body inv body_ok c qss sched cs Hc Hr) as [Hcp [Hcc _]].
+    split; [congruence|].
+    unfold fany_crashed. destruct (existsb fcrashed (fs_threads fs)) eqn:E; [|reflexivity].
+    apply existsb_exists in E. destruct E as [ft [Hin Hcr]]. apply In_nth_error in Hin. destruct Hin as [i Hi].
+    destruct (Forall2_nth_error_l _ _ _ _ _ Hth Hi) as [t [Ht [Hpc _]]].
+    assert (Hx : existsb crashedb (s_threads cs) = true).
+    { apply existsb_exists. exists t. split; [eapply nth_error_In; exact Ht|].
+      unfold fcrashed in Hcr. unfold crashedb. unfold pc_rel in Hpc.
+      destruct (ft_pc ft); try discriminate. destruct (t_pc t); try contradiction. reflexivity. }
+    unfold any_crashed in Hcc. congruence.
+  Qed.
+
+  Theorem fine_interleaving_sequential c0 qss fsched (fs : fstate) :
+    inv c0 -> frunT (finit c0 qss) fsched = Some fs ->
+    forall c1, inv c1 ->
+    forall i ft qs, nth_error (fs_threads fs) i = Some ft -> nth_error qss i = Some qs ->
+      exists c', seq_run body c1 (firstn (length (ft_done ft)) qs) = Ok (c', ft_done ft).
+  Proof.
+    intros H0 Hrun c1 H1 i ft qs Hi Hqs.
+    destruct (fine_simulated fsched _ _ _ (sim_init c0 qss) Hrun) as [sched [cs [Hr [_ [_ [Hth _]]]]]].
+    destruct (Forall2_nth_error_l _ _ _ _ _ Hth Hi) as [t [Ht [_ [_ Hdone]]]].
+    rewrite Hdone.
+    apply (interleaving_sequential_prefix Q A body inv body_ok answer_cache_independent
+             c0 qss sched cs H0 Hr c1 H1 i t qs Ht Hqs).
+  Qed.
+End FineProofs.
+
+(* the three regex-manager phases satisfy the premises *)
+Section RegexPhasesProofs.
+  Variable compile : key -> N.
+  Variable is_match : N -> N -> bool.
+  Notation cache_ok := (cache_ok compile).
+  Notation rm_atomic := (atomic_body rm_tick rm_probe (rm_commit compile is_match)).
+
+  (* while committing, an entry that Probe saw compiled is still compiled: Commit only adds *)
+  Lemma commit_fold_ok u : forall (kl : list (key * option entry)) c acc,
+    cache_ok c ->
+    (forall k r, In (k, Some (Compiled r)) kl -> exists r', lookup c k = Some (Compiled r')) ->
+    exists c', fold_left (commit_key compile is_match u) kl (Ok (c, acc)) =
+               Ok (c', acc ++ map (fun ks => is_match (compile (fst ks)) u) kl) /\ cache_ok c'.
+  Proof.
+    induction kl as [|[k s] kl IH]; intros c acc Hc Hseen; cbn [fold_left map].
+    - exists c. rewrite app_nil_r. auto.
+    - cbn [commit_key fst snd].
+      assert (Hset : forall c1, cache_ok c1 ->
+                (forall k0 r, lookup c k0 = Some (Compiled r) -> exists r', lookup c1 k0 = Some (Compiled r')) ->
+                exists c', fold_left (commit_key compile is_match u) kl (Ok (c1, acc ++ [is_match (compile k) u])) =
+                           Ok (c', acc ++ is_match (compile k) u :: map (fun ks => is_match (compile (fst ks)) u) kl) /\ cache_ok c').
+      { intros c1 Hc1 Hmono.
+        destruct (IH c1 (acc ++ [is_match (compile k) u]) Hc1) as [c' [Hf Hok]].
+        - intros k0 r Hin. destruct (Hseen k0 r (or_intror Hin)) as [r' Hr']. apply (Hmono k0 r' Hr').
+        - exists c'. rewrite Hf, <- app_assoc. auto. }
+      destruct s as [[r|]|].
+      + destruct (Hseen k r (or_introl eq_refl)) as [r' Hr']. rewrite Hr'.
+        rewrite (Hc k r' Hr'). apply Hset; [exact Hc|eauto].
+      + apply Hset; [apply cache_ok_set; exact Hc|].
+        intros k0 r Hl. rewrite lookup_set_entry. destruct (N.eqb k k0); eauto.
+      + apply Hset; [apply cache_ok_set; exact Hc|].
+        intros k0 r Hl. rewrite lookup_set_entry. destruct (N.eqb k k0); eauto.
+  Qed.
+
+  Lemma In_combine_map_lookup c ks k s : In (k, s) (combine ks (map (lookup c) ks)) -> s = lookup c k.
+  Proof.
+    induction ks as [|k0 ks IH]; cbn [map combine In]; [tauto|].
+    intros [H|H]; [inversion H; reflexivity|apply IH; exact H].
+  Qed.
+
+  Lemma map_fst_combine_lookup c (f : key -> bool) ks :
+    map (fun p : key * option entry => f (fst p)) (combine ks (map (lookup c) ks)) = map f ks.
+  Proof. induction ks as [|k ks IH]; cbn [map combine fst]; [reflexivity|]. rewrite IH. reflexivity. Qed.
+
+  Theorem rm_phases_fresh c q :
+    cache_ok c -> exists c', rm_atomic c q = Ok (c', fresh_answer compile is_match q) /\ cache_ok c'.
+  Proof.
+    intro Hc. unfold atomic_body, rm_commit, rm_probe.
+    assert (Hc1 : cache_ok (rm_tick c q)).
+    { unfold rm_tick. destruct (q_cleanup q); [apply cache_ok_discard|exact Hc]. }
+    destruct (commit_fold_ok (q_url q) (combine (q_touch q) (map (lookup (rm_tick c q)) (q_touch q)))
+                (rm_tick c q) [] Hc1) as [c' [Hf Hok]].
+    - intros k r Hin. apply In_combine_map_lookup in Hin. eauto.
+    - exists c'. rewrite Hf. split; [|exact Hok]. cbn [app].
+      rewrite (map_fst_combine_lookup (rm_tick c q) (fun k => is_match (compile k) (q_url q))).
+      rewrite existsb_id_map. reflexivity.
+  Qed.
+
+  Lemma rm_phases_ok : forall c q, cache_ok c -> exists c' a, rm_atomic c q = Ok (c', a) /\ cache_ok c'.
+  Proof. intros c q Hc. destruct (rm_phases_fresh c q Hc) as [c' [H1 H2]]. eauto. Qed.
+
+  Lemma rm_phases_independent :
+    forall c1 c2 q c1' a1 c2' a2, cache_ok c1 -> cache_ok c2 ->
+      rm_atomic c1 q = Ok (c1', a1) -> rm_atomic c2 q = Ok (c2', a2) -> a1 = a2.
+  Proof.
+    intros c1 c2 q c1' a1 c2' a2 H1 H2 Hb1 Hb2.
+    destruct (rm_phases_fresh c1 q H1) as [x [Hx _]]. destruct (rm_phases_fresh c2 q H2) as [y [Hy _]].
+    rewrite Hx in Hb1. rewrite Hy in Hb2. inversion Hb1. inversion Hb2. congruence.
+  Qed.
+
+  (* with the mutex, no interleaving of the phases of different threads can make
+     `v.regex.as_ref().unwrap()` fail, poison the lock or change an answer *)
+  Theorem rm_phases_safe c qss fsched (fs : fstate rq bool (list (option entry))) :
+    cache_ok c ->
+    frun rm_tick rm_probe (rm_commit compile is_match) true (finit c qss) fsched = Some fs ->
+    fs_poisoned fs = false /\ fany_crashed fs = false /\
+    forall i ft qs, nth_error (fs_threads fs) i = Some ft -> nth_error qss i = Some qs ->
+      ft_done ft = map (fresh_answer compile is_match) (firstn (length (ft_done ft)) qs).
+  Proof.
+    intros Hc Hrun.
+    destruct (fine_no_poison rq bool _ rm_tick rm_probe (rm_commit compile is_match) cache_ok rm_phases_ok
+                c qss fsched fs Hc Hrun) as [Hp Hcr].
+    split; [exact Hp|]. split; [exact Hcr|]. intros i ft qs Hi Hqs.
+    destruct (fine_interleaving_sequential rq bool _ rm_tick rm_probe (rm_commit compile is_match) cache_ok
+                rm_phases_ok rm_phases_independent c qss fsched fs Hc Hrun c Hc i ft qs Hi Hqs) as [c' Hseq].
+    assert (Hfresh : forall qs0 c0, cache_ok c0 ->
+              exists c1, seq_run rm_atomic c0 qs0 = Ok (c1, map (fresh_answer compile is_match) qs0)).
+    { induction qs0 as [|q0 r0 IH]; intros c0 H0; cbn [seq_run map]; [eauto|].
+      destruct (rm_phases_fresh c0 q0 H0) as [c1 [Hb Hc1]]. rewrite Hb.
+      destruct (IH c1 Hc1) as [c2 Hr]. rewrite Hr. eauto. }
+    destruct (Hfresh (firstn (length (ft_done ft)) qs) c Hc) as [c1 Hf].
+    rewrite Hf in Hseq. inversion Hseq. congruence.
+  Qed.
+End RegexPhasesProofs.
+
+(* WITHOUT the mutex the same phases race: thread 0 probes key 10 (compiled by its first query),
+   thread 1's cleanup discards it, thread 0 commits and unwraps None.  The cache is consistent
+   all along and the atomic body never panics on it: the panic is purely an interleaving effect.
+   With the mutex the same schedule is not even a run (thread 1 cannot enter). *)
+Definition ex_race_qss : list (list rq) :=
+  [[mkQ QNetwork 7 [10] false; mkQ QNetwork 7 [10] false]; [mkQ QCsp 8 [] true]].
+Definition ex_race_sched : list nat := [0; 0; 0; 0; 0; 0; 0; 0; 0; 1; 1; 0]%nat.
+
+Example ex_unlocked_race_panics :
+  match frun rm_tick rm_probe (rm_commit (compile_of ex_tbl) (match_of ex_mt)) false
+             (finit [] ex_race_qss) ex_race_sched with
+  | Some fs => fany_crashed fs = true /\ fs_cache fs = [(10, Discarded)]
+  | None => False
+  end.
+Proof. vm_compute. split; reflexivity. Qed.
+
+Example ex_locked_race_impossible :
+  frun rm_tick rm_probe (rm_commit (compile_of ex_tbl) (match_of ex_mt)) true
+       (finit [] ex_race_qss) ex_race_sched = None.
+Proof. vm_compute. reflexivity. Qed.
+
+Example ex_locked_run :
+  match frun rm_tick rm_probe (rm_commit (compile_of ex_tbl) (match_of ex_mt)) true
+             (finit [] ex_race_qss) [0; 0; 0; 0; 0; 0; 0; 0; 0; 0; 0; 1; 1; 1; 1; 1; 0; 1]%nat with
+  | Some fs => fany_crashed fs = false /\ fanswers fs = [[true; true]; [false]] /\ fs_owner fs = None
+  | None => False
+  end.
+Proof. vm_compute. repeat split. Qed.
+
+(* witness form of the race example, for Props_C19 *)
+Lemma without_mutex_refuted :
+  exists (qss : list (list rq)) sched fs,
+    cache_ok (compile_of ex_tbl) [] /\
+    frun rm_tick rm_probe (rm_commit (compile_of ex_tbl) (match_of ex_mt)) false (finit [] qss) sched = Some fs /\
+    fany_crashed fs = true /\
+    frun rm_tick rm_probe (rm_commit (compile_of ex_tbl) (match_of ex_mt)) true (finit [] qss) sched = None.
+Proof.
+  exists ex_race_qss, ex_race_sched. eexists. split; [apply cache_ok_nil|].
+  split; [vm_compute; reflexivity|]. split; vm_compute; reflexivity.
+Qed.
